@@ -33,7 +33,7 @@ static const char *regs[] =
 // FIXME - Move this somewhere else
 int get_register_msp430(const char *token)
 {
-  if (token[0] == 'r' || token[0] == 'R')
+  if ((token[0] == 'r' || token[0] == 'R') && token[1] != 0)
   {
     if (token[2] == 0 && (token[1] >= '0' && token[1] <= '9'))
     {
